@@ -53,14 +53,26 @@ def rule_delegate(ctx):
         key = fn_key(fn)
         res.instance(key)
         calls = [y for y in walk(fn["body"]) if y.get("k") == "MethodCall" and (c.dfn(y.get("def")) or {}).get("trait", "").endswith("SingleTargetRegression")]
-        axes = [y for y in walk(fn["body"]) if y.get("k") == "MethodCall" and y["name"] in ("axis_iter", "columns", "gencolumns")]
-        ax_ok = len(axes) >= 2 and all(y["name"] != "axis_iter" or "Axis(1)" in Render(c).e(y["args"][0]).replace(" ", "") for y in axes)
-        zipped = any(y.get("k") == "MethodCall" and y["name"] == "zip" for y in walk(fn["body"]))
+        bodies = [fn["body"]]
+        from .shortcut import _fn_of_def
+        for y in walk(fn["body"]):
+            if y.get("k") == "Call" and strip(y["f"]).get("k") == "Path":
+                g = _fn_of_def(F, c, strip(y["f"]).get("inst", strip(y["f"]).get("def")))
+                if g is None:
+                    g = _fn_of_def(F, c, strip(y["f"]).get("def"))
+                if g is not None and g["d"]["krate"] == "linfa" and not g.get("exp") and any(strip(a).get("k") == "Closure" for a in y["args"]):
+                    bodies.append(g["body"])      # `per_target_column(self, other, |a, b| a.metric(b))`
+        axes = [y for b_ in bodies for y in walk(b_) if y.get("k") == "MethodCall" and y["name"] in ("axis_iter", "columns", "gencolumns", "rows", "genrows", "outer_iter")]
+        ax_ok = len(axes) >= 2 and all(y["name"] in ("columns", "gencolumns") or (y["name"] == "axis_iter" and "Axis(1)" in Render(c).e(y["args"][0]).replace(" ", "")) for y in axes)
+        wrong_axis = [y for y in axes if y["name"] in ("rows", "genrows", "outer_iter") or (y["name"] == "axis_iter" and "Axis(1)" not in Render(c).e(y["args"][0]).replace(" ", ""))]
+        zipped = any(y.get("k") == "MethodCall" and y["name"] == "zip" for b_ in bodies for y in walk(b_))
         if not calls:
             res.undecided("%s : no-delegation" % key, "no call of a single-target metric found (fail closed)", fn_loc(fn))
         elif any(y["name"] != d["name"] for y in calls):
             other = next(y["name"] for y in calls if y["name"] != d["name"])
             res.violate("%s : delegates-to-other-metric:%s" % (key, other), "the multi-target `%s` computes the single-target `%s` per column" % (d["name"], other), fn_loc(fn, calls[0]["ln"]))
+        elif not (ax_ok and zipped) and not wrong_axis:
+            res.undecided("%s : column-walk" % key, "the column-by-column walk of both operands was not recognised here or in a helper (fail closed)", fn_loc(fn))
         elif not (ax_ok and zipped):
             res.violate("%s : not-column-wise" % key, "the operands are not walked column by column (axis 1 of both, zipped): the score of target j is not computed from column j of both operands", fn_loc(fn))
         else:
